@@ -77,7 +77,9 @@ KeysOf(s) == IF "bool" \in DOMAIN s THEN {} ELSE Emitted(s)
 
 \* ------------------------------------------------------------ DK: decorations (C18)
 DKBases == {IntS, [properties |-> [a |-> IntS], required |-> <<"a">>], [items |-> [minimum |-> R_2]],
-            [anyOf |-> <<StrS, [maximum |-> R_1]>>], [not |-> [type |-> "null"]], [additionalProperties |-> FalseS, properties |-> [a |-> TrueS]]}
+            [anyOf |-> <<StrS, [maximum |-> R_1]>>], [not |-> [type |-> "null"]], [additionalProperties |-> FalseS, properties |-> [a |-> TrueS]],
+            [contains |-> EmptyFcn, unevaluatedItems |-> FalseS], [prefixItems |-> <<EmptyFcn>>, unevaluatedItems |-> [type |-> "string"]],
+            [properties |-> [a |-> EmptyFcn], additionalProperties |-> EmptyFcn, unevaluatedProperties |-> FalseS]}
 DKDecos ==
   {[title |-> "t"], [description |-> "d"], [comment |-> "c"], [deprecated |-> TRUE], [readOnly |-> TRUE], [writeOnly |-> TRUE],
    [format |-> "email"], [format |-> "no-such-format"], [contentEncoding |-> "base64"], [contentMediaType |-> "application/json"],
@@ -92,16 +94,15 @@ DKRawKeys ==
    <<"MINIMUM", Str("a")>>, <<"x-vendor", Arr(<<Num(R_1), Null>>)>>, <<"", Num(R_1)>>, <<"U_e1", Bool(TRUE)>>}
 DKRaw == {[rawkeys |-> <<[k |-> r[1], v |-> r[2]]>>] : r \in DKRawKeys}
             \cup (IF K >= 2 THEN {[rawkeys |-> <<[k |-> r[1], v |-> r[2]], [k |-> q[1], v |-> q[2]]>>] : r \in DKRawKeys, q \in {<<"TYPE", Str("null")>>, <<"x", Null>>}} \ {[rawkeys |-> <<[k |-> "TYPE", v |-> Str("null")], [k |-> "TYPE", v |-> Str("null")]>>], [rawkeys |-> <<[k |-> "x", v |-> Null], [k |-> "x", v |-> Null]>>]} ELSE {})
-\* decorate the root, or the first subschema
-FirstChild(s) == CHOOSE seg \in ChildSegs(s) : TRUE
-DecorateAt(s, where, deco) ==
-  IF where = "root" \/ ChildSegs(s) = {} THEN s @@ deco
-  ELSE LET seg == FirstChild(s)
-       IN IF "i" \in DOMAIN seg THEN [s EXCEPT ![seg.k][seg.i] = @ @@ deco]
-          ELSE IF "n" \in DOMAIN seg THEN [s EXCEPT ![seg.k][seg.n] = @ @@ deco]
-          ELSE [s EXCEPT ![seg.k] = IF "bool" \in DOMAIN @ THEN @ ELSE @ @@ deco]
-DKCases == {[base |-> b, s |-> DecorateAt(b, w, d), raw |-> ("rawkeys" \in DOMAIN d)] :
-              b \in DKBases, w \in {"root", "child"}, d \in DKDecos \cup DKRaw}
+\* decorate the root, or any one subschema
+DecorateAt(s, seg, deco) ==
+  IF seg = <<>> THEN s @@ deco
+  ELSE IF "i" \in DOMAIN seg[1] THEN [s EXCEPT ![seg[1].k][seg[1].i] = IF "bool" \in DOMAIN @ THEN @ ELSE @ @@ deco]
+  ELSE IF "n" \in DOMAIN seg[1] THEN [s EXCEPT ![seg[1].k][seg[1].n] = IF "bool" \in DOMAIN @ THEN @ ELSE @ @@ deco]
+  ELSE [s EXCEPT ![seg[1].k] = IF "bool" \in DOMAIN @ THEN @ ELSE @ @@ deco]
+DKWhere == {<<>>} \cup {<<g>> : g \in UNION {ChildSegs(x) : x \in DKBases}}
+DKCases == {[base |-> t[1], s |-> DecorateAt(t[1], t[2], t[3]), raw |-> ("rawkeys" \in DOMAIN t[3])] :
+              t \in {x \in DKBases \X DKWhere \X (DKDecos \cup DKRaw) : x[2] = <<>> \/ x[2][1] \in ChildSegs(x[1])}}
 DKOk(c) == c.s # c.base
 
 \* ------------------------------------------------------------ RD: documents (C05, other direction)
@@ -167,7 +168,7 @@ RoundTripKeepsMeaning ==
 \* a keyword only if it is exactly the keyword
 DecorationInert ==
   (Family = "DK" /\ phase = "done") =>
-     /\ Verd(cs.s) = Verd(cs.base)
+     /\ VerdDr(cs.s, "2020") = VerdDr(cs.base, "2020")
      /\ \A p \in AllPaths(cs.s) : "rawkeys" \in DOMAIN NodeAtS(cs.s, p) =>
            \A i \in DOMAIN NodeAtS(cs.s, p).rawkeys :
               LET k == NodeAtS(cs.s, p).rawkeys[i].k
@@ -179,7 +180,7 @@ Emit ==
       CASE Family = "PO" -> cs
         [] Family = "RD" -> cs
         [] Family = "RT" -> [s |-> cs.s, dr |-> DrFor(cs.s), exp |-> Verd(cs.s), keys |-> SetToSeq(KeysOf(cs.s))]
-        [] Family = "DK" -> [u |-> Single(cs.s), base |-> cs.base, exp |-> Verd(cs.base), dr |-> "2020"])>>)
+        [] Family = "DK" -> [u |-> Single(cs.s), base |-> cs.base, exp |-> VerdDr(cs.base, "2020"), dr |-> "2020"])>>)
 
 ASSUME Family \in {"RT", "DK"} => PrintT(<<"INSTS", ToJson(RTInsts)>>)
 ====
